@@ -329,7 +329,10 @@ class HandshakeRace(core.Scenario):
             self.led.absorb_poll(g)
         tr = w.transport(self.sid)
         ended_after = ref['upgraded'] and any(e in ('1', 'CLOSE') or is_over(e) for e in ref['rest'])
-        if ref['upgraded'] != (tr == 'websocket') and not ref['pending'] and not (ended_after and tr is None):
+        # a peer close injected before the server has written the probe answer makes that write fail: with an early
+        # CLOSE both "upgraded then ended" and "handshake aborted" are legitimate outcomes
+        early_close = ref['upgraded'] and 'CLOSE' in ref['rest'] and tr in ('polling', None)
+        if ref['upgraded'] != (tr == 'websocket') and not ref['pending'] and not (ended_after and tr is None) and not early_close:
             self.flag('handshake_outcome_wrong', 'transport() = %r, reference upgraded=%s' % (tr, ref['upgraded']), trigger='race')
         if tr == 'polling' and self.sid in w.live_sids():
             for _ in range(3):
